@@ -199,7 +199,32 @@ func (cs c13Case) run(workers int) string {
 			return c13Nodes(obiclean.VerifBuildGraph(seqs, append([]int{}, cs.counts...), workers, cs.maxErr, cs.ratio()))
 		}
 		if cs.op == "c" {
-			recs := obiclean.VerifCLIOBIClean(seqs, cs.smaps, workers, cs.maxErr, cs.ratio(), cs.onlyHead)
+			// the batches of the iterator CLIOBIClean returns, in ARRIVAL order; the consumer below re-sequences them by
+			// their order number, as the writers do (cli_output_any_size of Props/C13W.lean): the numbers must be 0..k-1
+			batches := obiclean.VerifCLIOBICleanBatches(seqs, cs.smaps, workers, cs.maxErr, cs.ratio(), cs.onlyHead)
+			inOrder := true
+			for k, b := range batches {
+				if b.Order != k {
+					inOrder = false
+				}
+			}
+			if len(batches) > 1 {
+				stat("batches:2+")
+				if !inOrder {
+					stat("batches:arrival-out-of-order")
+				}
+			}
+			sort.SliceStable(batches, func(i, j int) bool { return batches[i].Order < batches[j].Order })
+			var recs []obiclean.VerifRecord
+			for k, b := range batches {
+				if b.Order != k {
+					return fmt.Sprintf("!batch-numbers:%d-at-%d", b.Order, k)
+				}
+				if k+1 < len(batches) && len(b.Records) != 1000 {
+					return fmt.Sprintf("!batch-size:%d-at-%d", len(b.Records), k)
+				}
+				recs = append(recs, b.Records...)
+			}
 			if len(recs) == 0 {
 				return "-"
 			}
@@ -809,6 +834,12 @@ func (c13) Exec(c string) (string, []Fail) {
 
 	// (2) identical for every worker count and from run to run
 	ws, rep := c13WorkerPlan(cs.workers)
+	if len(cs.seqs) > 500 && rep > 2 { // data sets of several batches: every worker count, fewer repetitions
+		rep = 2
+		if c13Tier != "thorough" {
+			rep = 1
+		}
+	}
 	ref := cs.run(1)
 	if ref != res {
 		fails = append(fails, Fail{"schedule." + cs.op, fmt.Sprintf("workers=%d differs from workers=1: %s", cs.workers, c13Diff(ref, res))})
@@ -1178,6 +1209,34 @@ func c13Line(op string, w, d int, r [2]int, items []c13Item) string {
 	return sb.String()
 }
 
+// c13Big : a data set of nrec records (more than one batch of 1000) spread over 26 samples: each record belongs to the
+// sample it was generated for and, one time in five, to a second one; op `c` (the real CLIOBIClean)
+func c13Big(rng *rand.Rand, nrec int, head bool, w, d int, r [2]int) string {
+	var sb strings.Builder
+	h := 0
+	if head {
+		h = 1
+	}
+	fmt.Fprintf(&sb, "c %d %d %d %d %d", w, d, r[0], r[1], h)
+	n := 0
+	for n < nrec {
+		samp := rng.Intn(26)
+		items := c13Sample(rng, 8+rng.Intn(12), false)
+		for _, it := range items {
+			if n >= nrec {
+				break
+			}
+			fmt.Fprintf(&sb, " %s/%c=%d", hx(it.seq), 'a'+samp, it.count)
+			if rng.Intn(5) == 0 {
+				o := (samp + 1 + rng.Intn(25)) % 26
+				fmt.Fprintf(&sb, ",%c=%d", 'a'+o, 1+rng.Intn(4))
+			}
+			n++
+		}
+	}
+	return sb.String()
+}
+
 func (c13) Gen(rng *rand.Rand, tier string, emit func(string)) {
 	c13Tier = tier
 	// corpus. First line: the star on which the unsynchronised `father.SonCount++` (D13) loses updates.
@@ -1227,6 +1286,15 @@ func (c13) Gen(rng *rand.Rand, tier string, emit func(string)) {
 		"c 2 1 1 1 1",
 	} {
 		emit(c)
+	}
+	// data sets of several batches of 1000 records (annotateOBIClean: IBatchOver / MakeISliceWorker / FilterOn(IsHead)),
+	// with and without --head; 26 samples of moderate size
+	bigs := [][2]int{{1100, 0}, {1250, 1}}
+	if tier == "thorough" {
+		bigs = [][2]int{{2300, 0}, {2600, 1}, {1001, 1}, {2000, 0}}
+	}
+	for _, b := range bigs {
+		emit(c13Big(rng, b[0], b[1] == 1, 2+rng.Intn(31), 1, c13Ratios[rng.Intn(len(c13Ratios))]))
 	}
 	ncase, nstar, maxN := 400, 10, 40
 	if tier == "thorough" {
